@@ -298,3 +298,12 @@ Definition agg_case_ok (c : agg_case) : bool :=
 
 Definition agg_mismatches (cs : list agg_case) : list N :=
   map ac_id (filter (fun c => negb (agg_case_ok c)) cs).
+
+(* ---- C16: the selector pool's sharing decisions vs Pool.key_eqb --------------------------- *)
+
+Record pool_case := mkPoolCase { plc_id : N; plc_a : sel; plc_b : sel; plc_shared : bool }.
+
+Definition pool_case_ok (c : pool_case) : bool := Bool.eqb (Pool.key_eqb (plc_a c) (plc_b c)) (plc_shared c).
+
+Definition pool_mismatches (cs : list pool_case) : list N :=
+  map plc_id (filter (fun c => negb (pool_case_ok c)) cs).
